@@ -69,7 +69,11 @@ class PerturbCase(Case):
         obj = lambda seq: np.array(list(seq), dtype=object)  # noqa: E731
         inject(cfg.variables, lower_bounds=env.arr(obj(inp["lb"]), writeable=False),
                upper_bounds=env.arr(obj(inp["ub"]), writeable=False))
-        inject(cfg.gradient, perturbation_magnitudes=env.arr(inp["m"], writeable=False))
+        # the gradient section as configured: raw magnitudes and the configured perturbation types
+        from ropt.enums import PerturbationType
+        types = np.array([PerturbationType.ABSOLUTE if t == "absolute" else PerturbationType.RELATIVE for t in self.ptypes], dtype=np.ubyte)
+        types.setflags(write=False)
+        inject(cfg.gradient, perturbation_magnitudes=env.arr(inp["m"], writeable=False), perturbation_types=types)
         # what validation does with the configured magnitudes (relative -> fraction of the bound range)
         cfg.__dict__["gradient"] = cfg.gradient.fix_perturbations(cfg.variables, None)
         pm = ens.stub_manager()
